@@ -116,6 +116,7 @@ DEFAULT_CONFIG_FLAGS = {
     'scoped': True,
     'expand_false': True,
     'implicit_seeds': True,
+    'nostar_patterns': True,   # pattern entries in fnmatch syntax without '*' ('?', '[seq]', '[!seq]', ranges)
     'ignore_patterns': False,  # gate: pattern entries in ignore lists
     'lists_vs_unqualified': False,   # gate: disable/block entries matching items reached via unqualified imports
     'strict': None,            # None = random
@@ -1166,7 +1167,23 @@ def gen_config(rng, project, flags=None):
                 if not exclusion:
                     cfeats.add('cfg_ignore_patterns')
                 base = local.split('%')[-1]
-                if rng.random() < 0.5:
+                if F['nostar_patterns'] and rng.random() < 0.4:
+                    # fnmatch syntax without '*': '?', '[seq]', '[!seq]', '[a-z]' in a local name, a member
+                    # path, a module name or a scoped name
+                    rr = rng.random()
+                    if scope and F['scoped'] and rr < 0.3:
+                        text = scope + '#' + _nostar_pattern(rng, local)
+                    elif scope and rr < 0.45:
+                        text = _nostar_pattern(rng, scope)          # module name pattern
+                    elif scope and F['scoped'] and rr < 0.55:
+                        text = _nostar_pattern(rng, target)
+                    elif '%' in local and rr < 0.7:
+                        text = _nostar_pattern(rng, local)
+                    else:
+                        text = _nostar_pattern(rng, base)
+                    cfeats.add('cfg_nostar_patterns')
+                    out.append(text)
+                elif rng.random() < 0.5:
                     out.append(base[:rng.randint(2, max(2, min(5, len(base) - 1)))] + '*')
                 else:
                     out.append('*' + base[-rng.randint(2, max(2, min(4, len(base) - 1))):])
@@ -1235,6 +1252,27 @@ def gen_config(rng, project, flags=None):
         else:
             seeds_arg.append(p.name)
     return config, seeds_arg
+
+
+def _nostar_pattern(rng, text):
+    """An fnmatch pattern without '*' that matches ``text`` (lower case): one or two alphanumeric characters
+    are replaced by '?', a character class containing the character, a negated class or a range."""
+    chars = list(text)
+    pos = [i for i, c in enumerate(chars) if c.isalnum()]
+    for i in rng.sample(pos, min(len(pos), rng.choice([1, 1, 2]))):
+        c = chars[i]
+        pool = '0123456789' if c.isdigit() else 'abcdefghijklmnopqrstuvwxyz'
+        other = rng.choice([x for x in pool if x != c])
+        r = rng.random()
+        if r < 0.4:
+            chars[i] = '?'
+        elif r < 0.65:
+            chars[i] = '[' + ''.join(sorted({c, other})) + ']'
+        elif r < 0.8:
+            chars[i] = '[!' + other + ']'
+        else:
+            chars[i] = '[0-9]' if c.isdigit() else '[a-z]'
+    return ''.join(chars)
 
 
 def _name_clash(truth, local):
